@@ -181,4 +181,50 @@ theorem object_roundtrip (F : FloatOps α) (mb : MbLen) (prog : List Nat) (z : B
       ObjRestored F vars live res :=
   NV.C16.object_roundtrip F mb prog z vars live hprog hs hf hlay
 
+/-- restore_object(file, 1) (noclear): as `object_roundtrip`, except that a non-static variable the save did not
+write (no save_zeros, value 0) keeps its LIVE value instead of becoming 0 (`ObjRestoredNC.kept`) -/
+theorem object_roundtrip_noclear (F : FloatOps α) (mb : MbLen) (prog : List Nat) (z : Bool)
+    (vars live : List (Var α)) (hprog : ∀ b ∈ prog, b ≠ 10 ∧ b ≠ 0) (hs : objSavable vars = true)
+    (hf : ∀ v ∈ vars, v.isStatic = false → FloatsOK F v.val)
+    (hlay : live.map (·.name) = vars.map (·.name) ∧ live.map (·.isStatic) = vars.map (·.isStatic)) :
+    ∃ res, restoreObject F mb true (some (saveFileText F prog z vars)) live = (1, RoOut.done res) ∧
+      ObjRestoredNC F z vars live res :=
+  NV.C16.object_roundtrip_noclear F mb prog z vars live hprog hs hf hlay
+
+/-! ## bridging lemmas over the REGENERATED source facts (NV/Gen/C16.lean): a changed C line breaks these -/
+
+/-- the additive constants in the return statements of `svalue_save_size` cover what `save_svalue` writes -/
+theorem size_overheads_suffice : 3 ≤ sizeStr ∧ 5 ≤ sizeArr ∧ 5 ≤ sizeCls ∧ 5 ≤ sizeMap ∧ 2 ≤ sizeInt ∧
+    1 ≤ sizeReal ∧ 1 ≤ sizeOther := NV.C16.size_overheads_suffice
+
+/-- every byte `save_svalue` escapes is counted twice by `svalue_save_size` -/
+theorem saveEscaped_sub_sizeEscaped : ∀ c, saveEscaped.contains c = true → sizeEscaped.contains c = true :=
+  NV.C16.saveEscaped_sub_sizeEscaped
+
+/-- the restore functions undo the LF → CR substitution of `save_svalue` ... -/
+theorem restore_swap_inverts_save : restoreSwapFrom = swapTo ∧ restoreSwapTo = swapFrom :=
+  NV.C16.restore_swap_inverts_save
+
+/-- ... at all six sites (two each in restore_string, restore_interior_string, restore_hash_string) alike -/
+theorem restore_swap_sites_agree : NV.Gen.C16.restoreSwapSitesAgree = true := by decide
+
+/-- `"`, `\` and CR are escaped by `save_svalue` (what the string round trip needs) -/
+theorem save_escapes_quote_backslash_cr :
+    saveEscaped.contains 34 = true ∧ saveEscaped.contains 92 = true ∧ saveEscaped.contains 13 = true := by decide
+
+/-- for paths up to the `%.Ns` prefix the temporary is `<file>.tmp`: not truncated by `tmp_name[]`, and a name
+different from the save file -/
+theorem tmpName_ne_file (file : List Nat) (h : file.length ≤ NV.Gen.C16.tmpPrefixMax) :
+    tmpName file = file ++ [46, 116, 109, 112] ∧ tmpName file ≠ file := NV.C16.tmpName_ne_file file h
+
+/-- **No temporary is left behind**: a save that reports failure — whichever call failed — has closed and unlinked
+its temporary (true since the header-failure fix); so has a successful save (renamed away) -/
+theorem save_failure_leaves_no_tmp (chunks : List (List Nat)) (old : Option (List Nat)) (j : Nat) :
+    (saveScript chunks (some j)).2 = 0 → ((FS.mk old none).run (saveScript chunks (some j)).1).tmp = none :=
+  NV.C16.save_failure_leaves_no_tmp chunks old j
+
+theorem save_success_leaves_no_tmp (chunks : List (List Nat)) (old : Option (List Nat)) :
+    ((FS.mk old none).run (saveScript chunks none).1).tmp = none :=
+  NV.C16.save_success_leaves_no_tmp chunks old
+
 end NV.C16.Props
